@@ -441,7 +441,7 @@ func (fr *Frame) applyExtern(ins *ssa.Call, fc *FuncContract, fo *types.Func, re
 			for _, t := range ts {
 				ex.frameCheck(fr, st, t, ins.Pos())
 			}
-			for k := range whole {
+			for _, k := range sortedKeys(whole) {
 				ex.frameCheckWhole(fr, st, k, ins)
 			}
 			ex.applyHavoc(st, ts, whole)
@@ -589,7 +589,7 @@ func (fr *Frame) callContract(ins *ssa.Call, fn *ssa.Function, fc *FuncContract,
 	for _, t := range ts {
 		ex.frameCheck(fr, st, t, ins.Pos())
 	}
-	for k := range whole {
+	for _, k := range sortedKeys(whole) {
 		ex.frameCheckWhole(fr, st, k, ins)
 	}
 	if fc.HavocAll {
